@@ -223,7 +223,7 @@ func (t *Trie) PrefixSearch(key string) []string {
 			}
 
 			back := int(cur.depth + 1 - stack[last-1].depth)
-			buf.Truncate(buf.Len() - back)
+			truncateRunes(&buf, back)
 			continue
 		}
 
@@ -293,7 +293,7 @@ func (t *Trie) FuzzySearch(key string) []string {
 				}
 
 				back := int(cur.depth + 1 - stack[last-1].depth)
-				buf.Truncate(buf.Len() - back)
+				truncateRunes(&buf, back)
 				continue
 			}
 
@@ -396,6 +396,19 @@ func decodeRune(s string, i int) (rune, int) {
 
 	r, size := utf8.DecodeRuneInString(s[i:])
 	return r, size
+}
+
+// truncateRunes removes the last n runes from buf. The depth bookkeeping of the
+// searches counts runes, the buffer holds bytes: multi-byte runes must be
+// removed with their full width.
+func truncateRunes(buf *bytes.Buffer, n int) {
+	b := buf.Bytes()
+	end := len(b)
+	for ; n > 0 && end > 0; n-- {
+		_, size := utf8.DecodeLastRune(b[:end])
+		end -= size
+	}
+	buf.Truncate(end)
 }
 
 type trieFrame struct {
